@@ -63,3 +63,136 @@ class run_election_alaska:
 
     def ensures(self):
         return len(self.election_states) >= 1
+
+
+EL_STATES = dict(election_states=Seq(StateRef, "list"))
+
+
+@contract("models.py", "Election.get_elected", props=("C09", "C01"))
+class get_elected:
+    """IndexError iff the index is outside [-len, len-1]; a negative index addresses the same round as its non-negative
+    equivalent (the normalised index is round_number mod len); the answer is the concatenation of the non-placeholder
+    `elected` records of rounds 0..r, in order; nothing is modified (no store to self occurs in the body)."""
+    params = dict(self=Obj("Election", EL_STATES), round_number=Int)
+    returns = Seq(CSet)
+
+    def requires(self, round_number):
+        return len(self.election_states) >= 1
+
+    def raises_IndexError(self, round_number):
+        return round_number < -len(self.election_states) or round_number > len(self.election_states) - 1
+
+    def ensures(self, old_self, round_number, result):
+        return (result == cat_elected(self.election_states, (round_number if round_number >= 0 else round_number + len(self.election_states)) + 1)
+                and self.election_states == old_self.election_states)
+
+    def comp_0(self, round_number):
+        return cat_elected(self.election_states[: (round_number + 1)], len(self.election_states[: (round_number + 1)]))
+
+    def hint_return(self, round_number):
+        return cat_elected_take(self.election_states, round_number + 1, round_number + 1)
+
+
+@contract("models.py", "Election.get_eliminated", props=("C09", "C01"))
+class get_eliminated:
+    """same index rule; the answer lists, latest round first, the non-placeholder `eliminated` records of rounds r..0,
+    each in reverse order; nothing is modified"""
+    params = dict(self=Obj("Election", EL_STATES), round_number=Int)
+    returns = Seq(CSet)
+
+    def requires(self, round_number):
+        return len(self.election_states) >= 1
+
+    def raises_IndexError(self, round_number):
+        return round_number < -len(self.election_states) or round_number > len(self.election_states) - 1
+
+    def ensures(self, old_self, round_number, result):
+        return (result == cat_eliminated_rev(
+            reversed_seq(self.election_states[:(round_number if round_number >= 0 else round_number + len(self.election_states)) + 1]),
+            (round_number if round_number >= 0 else round_number + len(self.election_states)) + 1)
+            and self.election_states == old_self.election_states)
+
+    def comp_0(self, round_number):
+        return cat_eliminated_rev(self.election_states[round_number::-1], len(self.election_states[round_number::-1]))
+
+
+@contract("models.py", "Election.get_remaining", props=("C09", "C01"), implicit_raises=("IndexError",))
+class get_remaining:
+    """the recorded `remaining` of the addressed round (python list indexing: IndexError iff outside [-len, len-1];
+    negative indices address round r+len)"""
+    params = dict(self=Obj("Election", EL_STATES), round_number=Int)
+    returns = Seq(CSet)
+
+    def raises_IndexError(self, round_number):
+        return round_number < -len(self.election_states) or round_number > len(self.election_states) - 1
+
+    def ensures(self, old_self, round_number, result):
+        return (result == self.election_states[round_number if round_number >= 0 else round_number + len(self.election_states)].remaining
+                and self.election_states == old_self.election_states)
+
+
+@contract("models.py", "Election.get_ranking", props=("C09", "C01"))
+class get_ranking:
+    """elected ++ remaining ++ eliminated of the round without empty positions; IndexError as for the parts"""
+    params = dict(self=Obj("Election", EL_STATES), round_number=Int)
+    returns = Seq(CSet)
+
+    def requires(self, round_number):
+        return len(self.election_states) >= 1
+
+    def raises_IndexError(self, round_number):
+        return round_number < -len(self.election_states) or round_number > len(self.election_states) - 1
+
+    def ensures(self, old_self, round_number, result):
+        return (result == nonempty_only(
+            cat_elected(self.election_states, (round_number if round_number >= 0 else round_number + len(self.election_states)) + 1)
+            + self.election_states[round_number if round_number >= 0 else round_number + len(self.election_states)].remaining
+            + cat_eliminated_rev(
+                reversed_seq(self.election_states[:(round_number if round_number >= 0 else round_number + len(self.election_states)) + 1]),
+                (round_number if round_number >= 0 else round_number + len(self.election_states)) + 1),
+            len(cat_elected(self.election_states, (round_number if round_number >= 0 else round_number + len(self.election_states)) + 1))
+            + len(self.election_states[round_number if round_number >= 0 else round_number + len(self.election_states)].remaining)
+            + len(cat_eliminated_rev(
+                reversed_seq(self.election_states[:(round_number if round_number >= 0 else round_number + len(self.election_states)) + 1]),
+                (round_number if round_number >= 0 else round_number + len(self.election_states)) + 1)))
+            and self.election_states == old_self.election_states)
+
+    def comp_0(self, round_number):
+        return nonempty_only(self.get_elected(round_number) + self.get_remaining(round_number) + self.get_eliminated(round_number),
+                             len(self.get_elected(round_number) + self.get_remaining(round_number) + self.get_eliminated(round_number)))
+
+
+@contract("models.py", "Election._run_step", props=(), assumed=True)
+class run_step_abstract:
+    """ASSUMED abstract contract used by get_profile: with store_states=False the step is a function of (profile, state)
+    and modifies nothing.  The `modifies nothing` half is discharged per rule by the frame obligations below
+    (effect scan of the real _run_step bodies); the `function of its arguments` half holds when no random draw is made
+    (the C09 statement's proviso) and is otherwise covered only by the bounded tier."""
+    params = dict(self=Obj("Election", {}), profile=Profile, prev_state=StateRef, store_states=Bool)
+    returns = Profile
+    trusted = ("assumed contract: Election._run_step(profile, state, store_states=False) is a function of (profile, state) (no random draw)",)
+
+    def result(profile, prev_state):
+        return step_fn(profile, prev_state)
+
+
+@contract("models.py", "Election.get_profile", props=("C09",))
+class get_profile:
+    """IndexError iff out of range; otherwise the initial profile pushed through rounds 0..r-1 by the rule's step, for the
+    normalised index (negative indices address round r+len); nothing is modified"""
+    params = dict(self=Obj("Election", dict(election_states=Seq(StateRef, "list"), _profile=Profile)), round_number=Int)
+    returns = Profile
+    locals = dict(profile=Profile)
+
+    def requires(self, round_number):
+        return len(self.election_states) >= 1
+
+    def raises_IndexError(self, round_number):
+        return round_number < -len(self.election_states) or round_number > len(self.election_states) - 1
+
+    def ensures(self, old_self, round_number, result):
+        return (result == replay(self._profile, self.election_states, round_number if round_number >= 0 else round_number + len(self.election_states))
+                and self.election_states == old_self.election_states and self._profile == old_self._profile)
+
+    def invariant_0(self, profile, _k):
+        return profile == replay(self._profile, self.election_states, _k)
